@@ -308,6 +308,30 @@ func init() {
 				add(cacheIn{Cache: true, Case: c, Thr: 2, Seed: 71, MissPct: 0, DropPct: 0})
 				add(cacheIn{Cache: true, Case: c, Thr: 2, Seed: 72, MissPct: 100, DropPct: 0})
 			}
+			// dedicated: value lists of a range field in every order and with repeats and gaps (ascending runs, a run with
+			// one value repeated and one skipped, descending, repeats only, gaps only), cached: a codec that abbreviates a
+			// list must give the same list back
+			for _, kind := range []string{"kgroups", "compact"} {
+				vals := func(zs ...int64) TV {
+					l := make([]TV, len(zs))
+					for i, z := range zs {
+						l[i] = tvInt("int64", z)
+					}
+					return tvSlice("[]int64", l...)
+				}
+				c := eCase{Kind: kind, Policy: "error", Configs: map[int]string{2: "ext_range"}}
+				for i, zs := range [][]int64{{18, 19, 19, 21}, {18, 19, 20, 21}, {21, 20, 19, 18}, {5, 5, 5, 5}, {1, 3, 5, 7}, {30, 31, 31, 31, 34}, {-3, -2, -2, 0}, {40, 41, 43, 43}, {50, 50, 52}} {
+					c.Docs = append(c.Docs, eDoc{ID: int64(i + 1), Cons: []eConj{{{F: 2, Inc: i%4 != 3, V: vals(zs...)}, {F: 0, Inc: true, V: tvSlice("[]int", tvInt("int", 5))}}}})
+				}
+				for a := int64(-4); a <= 53; a++ {
+					if a > 8 && a < 17 || a > 22 && a < 29 {
+						continue
+					}
+					c.Queries = append(c.Queries, eQuery{A: []eAssign{{F: 2, V: tvInt("int64", a)}, {F: 0, V: tvInt("int", 5)}}})
+				}
+				add(cacheIn{Cache: true, Case: c, Thr: 2, Seed: 95, MissPct: 0, DropPct: 0})
+				add(cacheIn{Cache: true, Case: c, Thr: 3, Seed: 96, MissPct: 30, DropPct: 0, Retain: true})
+			}
 			// dedicated: Skip policy, an unparseable conjunction immediately before conjunctions that are served from the
 			// cache on the warm builds (and one after them): the skipped one must not disturb its siblings
 			for _, kind := range []string{"kgroups", "compact"} {
